@@ -2,7 +2,9 @@
 PROPERTY = "C19"
 LEVEL = "proof"
 FUNCTIONS = ['uxarray.grid.connectivity._replace_fill_values',
-    'uxarray.io._topology._process_connectivity']
+    'uxarray.io._topology._process_connectivity',
+    'uxarray.io._mpas._parse_face_nodes@primal',
+    'uxarray.io._mpas._parse_face_nodes@dual']
 STANDINS = ["sharing", "explicit_spec"]
 ASSUMPTIONS = []
 EXPLANATION = ""
